@@ -373,7 +373,11 @@ def bfs(tier, depth, workers) -> Acc:
 POOL_COMPS = COMPS | {Component(18, ComponentCategory.INVERTER, InverterType.BATTERY), Component(19, ComponentCategory.BATTERY)}
 POOL_CONNS = CONNS | {Connection(2, 18), Connection(18, 19)}
 POOL_EVENTS = [("B", 9, "ok"), ("B", 9, "relay-open"), ("I", 8, "ok"), ("B", 19, "ok"), ("I", 18, "ok"), ("I", 18, "critical"),
-               ("W", 6.0), ("W", 1.0), ("R", "fail9"), ("R", "fail19"), ("R", "ok-all")]
+               ("W", 6.0), ("W", 1.0), ("R", "fail9"), ("R", "fail19"), ("R", "ok-all"),
+               # two results reported back to back (the reporting task is not suspended in between)
+               ("RR", "ok19-fail9", "ok19"), ("RR", "fail19", "ok9")]
+RESULT_SETS = {"fail9": (set(), {9}), "fail19": (set(), {19}), "ok-all": ({9, 19}, set()), "ok19-fail9": ({19}, {9}),
+               "ok19": ({19}, set()), "ok9": ({9}, set())}
 
 
 def run_pool_history(hist):
@@ -399,13 +403,18 @@ def run_pool_history(hist):
                 api.push(invmsg(e[1], e[2], loop.wall_now()))
                 loop.settle()
                 refs[inv_of[e[1]]].ev(("I", e[2]))
-            elif e[0] == "R":
-                failed = {9} if e[1] == "fail9" else ({19} if e[1] == "fail19" else set())
-                ok = {9, 19} - failed if e[1] == "ok-all" else set()
-                loop.create_task(pool.update_status(ok, failed))
+            elif e[0] in ("R", "RR"):
+                batch = [RESULT_SETS[k] for k in e[1:]]
+
+                async def report(batch=batch):
+                    for ok, failed in batch:
+                        await pool.update_status(set(ok), set(failed))
+
+                loop.create_task(report())
                 loop.settle()
-                for b in (9, 19):
-                    refs[b].ev(("R", "ok" if b in ok else ("fail" if b in failed else "none")))
+                for ok, failed in batch:
+                    for b in (9, 19):
+                        refs[b].ev(("R", "ok" if b in ok else ("fail" if b in failed else "none")))
             else:
                 loop.advance(e[1])
                 for r in refs.values():
@@ -444,7 +453,7 @@ def pool_shard(args) -> Acc:
         acc.transitions += len(hist)
         acc.clauses["pool_status_matches_component_statuses"] += 1
         acc.clauses["uncertain_used_only_when_none_working"] += 3 * len(hist)
-        acc.nontrivial += 1 if any(e[0] == "R" for e in hist) else 0
+        acc.nontrivial += 1 if any(e[0] in ("R", "RR") for e in hist) else 0
         acc.state(repr(hist))
         for clause, detail in viol:
             acc.violation(Violation(clause, {"driver": "pool", "history": [list(e) for e in hist]}, detail))
@@ -518,7 +527,7 @@ def run(tier: str, seed: int, workers: int):
         "maximum age), 6 s; set-power result succeeded / failed / not mentioned} to the stated depth, from a healthy start, "
         "from a cold start and after a failure; each history is one execution of the real tracker, compared step by step with "
         "the reference; non-trivial = the notification sequence contains UNCERTAIN or both WORKING and NOT_WORKING; plus the "
-        "real ComponentPoolStatusTracker over two batteries (11 events, from a cold start and from both batteries healthy) and all "
+        "real ComponentPoolStatusTracker over two batteries (13 events incl. two results reported back to back, from a cold start and from both batteries healthy) and all "
         "3-element ComponentPoolStatus queries; plus a BFS "
         "from the cold start to depth 10 (quick) / 13 (thorough) with states merged on (validity flags, reception and message ages, "
         "blocking deadline relative to now, last blocking duration, last status) read from the reference AND the real tracker",
